@@ -109,6 +109,7 @@ type srcOpts struct {
 	Opt         bool   // declare the helpers of the eta-shape closures in every package
 	By          bool   // programs are bystanders: plain functions next to a generator (C13)
 	CompileOnly bool   // stop after compiling and building the generated packages (C11)
+	Box         bool   // generators of element type *rt.Box (fresh objects), adapted to the int protocol by rt.BoxIt
 	PerPkg      int    // programs per package (crash isolation granularity)
 	Race        bool
 }
@@ -353,6 +354,11 @@ func runSrcFamilyN(c *vf.Check, cases []srcCase, callsOf func(i int) int, o srcO
 				for i := 0; i < np; i++ {
 					fmt.Fprintf(&b, "\tB%d,\n", i)
 				}
+			} else if o.Box {
+				b.WriteString("var All = []func(*rt.Rec, int, int) *rt.NIterT[*rt.Box]{\n")
+				for i := 0; i < np; i++ {
+					fmt.Fprintf(&b, "\tG%d,\n", i)
+				}
 			} else {
 				b.WriteString("var All = []func(*rt.Rec, int, int) *rt.NIter{\n")
 				for i := 0; i < np; i++ {
@@ -416,7 +422,11 @@ func runSrcFamilyN(c *vf.Check, cases []srcCase, callsOf func(i int) int, o srcO
 				all.WriteString(optDecls + strings.ReplaceAll(byExtras, "PKG", pkg))
 				return all.String()
 			}
-			all.WriteString("var All = map[int]func(*rt.Rec, int, int) " + api + "Iter[int]{\n")
+			elem := "int"
+			if o.Box {
+				elem = "*rt.Box"
+			}
+			all.WriteString("var All = map[int]func(*rt.Rec, int, int) " + api + "Iter[" + elem + "]{\n")
 			for _, i := range live {
 				fmt.Fprintf(&all, "\t%d: G%d,\n", i, i)
 			}
@@ -441,13 +451,19 @@ func runSrcFamilyN(c *vf.Check, cases []srcCase, callsOf func(i int) int, o srcO
 		fmt.Fprintf(&imp, "\tgen%03d \"scratch/gen%03d\"\n", pk, pk)
 		if o.By {
 			fmt.Fprintf(&reg, "\tfor k, v := range gen%03d.All {\n\t\tv := v\n\t\tgenAll[k] = func(r *rt.Rec, a, b int) It { return &byIt{f: v, r: r, a: a, b: b, extras: gen%03d.Extras} }\n\t}\n", pk, pk)
+		} else if o.Box {
+			fmt.Fprintf(&reg, "\tfor k, v := range gen%03d.All {\n\t\tv := v\n\t\tgenAll[k] = func(r *rt.Rec, a, b int) It { return &rt.BoxIt{In: v(r, a, b)} }\n\t}\n", pk)
 		} else {
 			fmt.Fprintf(&reg, "\tfor k, v := range gen%03d.All {\n\t\tv := v\n\t\tgenAll[k] = func(r *rt.Rec, a, b int) It { return v(r, a, b) }\n\t}\n", pk)
 		}
 		if o.Stage {
 			if _, err := os.Stat(filepath.Join(dir, fmt.Sprintf("gen%03dstage", pk))); err == nil {
 				fmt.Fprintf(&imp, "\ttmp%03d \"scratch/gen%03dstage\"\n", pk, pk)
-				fmt.Fprintf(&reg, "\tfor k, v := range tmp%03d.All {\n\t\tv := v\n\t\ttmpAll[k] = func(r *rt.Rec, a, b int) It { return v(r, a, b) }\n\t}\n", pk)
+				if o.Box {
+					fmt.Fprintf(&reg, "\tfor k, v := range tmp%03d.All {\n\t\tv := v\n\t\ttmpAll[k] = func(r *rt.Rec, a, b int) It { return &rt.BoxIt{In: v(r, a, b)} }\n\t}\n", pk)
+				} else {
+					fmt.Fprintf(&reg, "\tfor k, v := range tmp%03d.All {\n\t\tv := v\n\t\ttmpAll[k] = func(r *rt.Rec, a, b int) It { return v(r, a, b) }\n\t}\n", pk)
+				}
 			}
 		}
 	}
@@ -455,6 +471,9 @@ func runSrcFamilyN(c *vf.Check, cases []srcCase, callsOf func(i int) int, o srcO
 	drv = strings.Replace(drv, "//REGISTER\n", reg.String(), 1)
 	if o.By {
 		drv = strings.Replace(drv, "return nat.All[in.Idx](r, a, b)", "return &byIt{f: nat.All[in.Idx], r: r, a: a, b: b, extras: nat.Extras}", 1)
+	}
+	if o.Box {
+		drv = strings.Replace(drv, "return nat.All[in.Idx](r, a, b)", "return &rt.BoxIt{In: nat.All[in.Idx](r, a, b)}", 1)
 	}
 	writeFile(filepath.Join(dir, "main.go"), drv)
 	args := []string{"build", "-o", "driver"}
